@@ -15,10 +15,11 @@ PROPERTY = "C03"
 LEVEL = "exploration"
 BUDGET_S = {"quick": 50, "thorough": 700}
 FLOOR = {"quick": 4000, "thorough": 40000}
-MUST_REACH = ("shadow_of_calls_judged", "true_answers_judged", "ambient_calls_judged", "grouped_pairs", "skip_settings_compared")
+MUST_REACH = ("shadow_of_calls_judged", "true_answers_judged", "ambient_calls_judged", "grouped_pairs", "skip_settings_compared",
+              "member_mutations_then_requery")
 RULE = ("related ordered pairs (top, bottom): the bottom is derived field by field from the top (same / narrowed / widened / "
         "unrelated addresses, contained or unrelated port expressions incl. lt 1 and gt 65535, flag subsets, log tokens, "
-        "same or other action and protocol), address groups with 1..4 arbitrary members (also non-contiguous) on either "
+        "same or other action and protocol, named and unnamed protocol numbers), query - change group members in place - query again histories, address groups with 1..4 arbitrary members (also non-contiguous) on either "
         "side, both platforms; each pair is evaluated under None and every ordering of every subset of {addrgroup, "
         "nc_wildcard}; plus small-world ACLs whose shading() drives shadow_of internally (ambient). judged = monitor "
         "evaluations of Ace.shadow_of; distinct non-trivial = (platform, protocol relation, address kinds, port "
@@ -123,6 +124,31 @@ def execute(ctx, case: dict) -> None:
                 ctx.violation(case, "adding a skip option turned an answer from False to True",
                               {"with": sup, "without": sub, "answers": answers})
         case["_answer"] = base
+        # history: change the members of a group in place, then ask again (a stale expansion would answer for the old members)
+        for mut in case.get("muts", []):
+            from cisco_acl import Address  # pylint: disable=import-outside-toplevel
+
+            ace = top if mut["who"] == "top" else bottom
+            addr = ace.srcaddr if mut["side"] == "src" else ace.dstaddr
+            if not addr.addrgroup:
+                continue
+            try:
+                if mut["op"] == "append":
+                    addr.items.append(Address(mut["text"], platform=platform, max_ncwb=20))
+                elif mut["op"] == "pop" and len(addr.items) > 1:
+                    addr.items.pop(mut.get("idx", -1) % len(addr.items))
+                elif mut["op"] == "line" and addr.items:
+                    addr.items[mut.get("idx", 0) % len(addr.items)].line = mut["text"]
+                else:
+                    continue
+            except (ValueError, TypeError):
+                continue
+            ctx.count("member_mutations_then_requery")
+            try:
+                bottom.shadow_of(top)
+                bottom.shadow_of(top, skip=["nc_wildcard"])
+            except Exception as ex:  # pylint: disable=broad-except
+                ctx.violation(case, "shadow_of raised after an in-place member change", f"{type(ex).__name__}: {ex}")
     else:  # ambient: ACL-level shading drives shadow_of internally
         MODE["ambient"] = True
         acl = Acl(case["text"], platform=platform, max_ncwb=20)
@@ -199,8 +225,19 @@ def run(ctx, exact: bool = False, groups: bool = True) -> None:
         if rng.random() < 0.8:
             pair = sc.gen_related_pair(rng, platform, groups=groups, small=sc.SMALL if rng.random() < 0.3 else None)
             case = {"k": "pair", "platform": platform, **pair}
+            grouped = [(w, sd) for w in ("top", "bottom") for sd in ("src", "dst") if case[w].get(sd + "_items")]
+            if grouped and rng.random() < 0.6:
+                from vcheck.checks.C13 import rand_cube, spell  # pylint: disable=import-outside-toplevel
+
+                muts = []
+                for _ in range(rng.randint(1, 3)):
+                    who, side = rng.choice(grouped)
+                    cube = rand_cube(rng, 2) if rng.random() < 0.5 else sc._small_cube(rng, sc.SMALL)
+                    muts.append({"who": who, "side": side, "op": rng.choice(["append", "pop", "line", "line"]),
+                                 "idx": rng.randrange(4), "text": spell(rng, cube, platform, "Address")})
+                case["muts"] = muts
             execute(ctx, case)
-            if any(case[s].get(k) for s in ("top", "bottom") for k in ("src_items", "dst_items")):
+            if grouped:
                 ctx.count("grouped_pairs")
             ans = case.pop("_answer", None)
             case["_answer"] = ans
